@@ -8,7 +8,7 @@ import sys, os, re
 from collections import Counter
 sys.path.insert(0, os.path.join(os.path.dirname(__file__), "..", "tools"))
 import vlib
-from checks import common, treecommon as T, algocommon as A
+from checks import common, treecommon as T, algocommon as A, c09
 
 POLICIES = {0: "immediate", 1: "fifo-deferred", 2: "lifo-deferred", 3: "random", 4: "priority-inverted", 5: "priority"}
 OMPFLAGS = ["-fopenmp", "-DTBF_USE_OPENMP"]
@@ -51,6 +51,111 @@ def footprint(c, cg, pg, L):
     elif c.op == "P2PInner":
         r.add("D%d" % pg[c.tgt]); w.add("R%d" % pg[c.tgt])
     return r, w
+
+
+def footprint_tsm(c, cgs, pgs, cgt, pgt, L):
+    r, w = set(), set()
+    if c.op == "P2M":
+        r.add("DS%d" % pgs[c.tgt]); w.add("M%d.%d" % (L, cgs[L][c.tgt]))
+    elif c.op == "M2M":
+        w.add("M%d.%d" % (c.level, cgs[c.level][c.tgt]))
+        for a, _, _ in c.srcs: r.add("M%d.%d" % (c.level + 1, cgs[c.level + 1][a]))
+    elif c.op == "M2L":
+        w.add("L%d.%d" % (c.level, cgt[c.level][c.tgt]))
+        for a, _, _ in c.srcs: r.add("M%d.%d" % (c.level, cgs[c.level][a]))
+    elif c.op == "L2L":
+        r.add("L%d.%d" % (c.level, cgt[c.level][c.tgt]))
+        for a, _, _ in c.srcs: w.add("L%d.%d" % (c.level + 1, cgt[c.level + 1][a]))
+    elif c.op == "L2P":
+        r.add("L%d.%d" % (L, cgt[L][c.tgt])); r.add("DT%d" % pgt[c.tgt]); w.add("R%d" % pgt[c.tgt])
+    elif c.op == "P2PTsm":
+        r.add("DS%d" % pgs[c.src]); r.add("DT%d" % pgt[c.tgt]); w.add("R%d" % pgt[c.tgt])
+    return r, w
+
+
+def parse_decl(part):
+    decl = {}
+    for tok in part.split()[1:]:
+        seq, prio, worker, deps = tok.split(":", 3)
+        ins, outs = set(), set()
+        for dd in deps.split(","):
+            if not dd: continue
+            kind, buf = dd.split("@")
+            if buf == "?": return None, "task %s declares a dependence on an address that is no group buffer" % seq
+            (ins if kind == "in" else outs).add(buf)
+        decl[int(seq)] = (ins, outs, int(worker))
+    return decl, None
+
+
+def check_footprints(trace, decl, fp):
+    cur = None
+    for line_ in trace:
+        if line_.startswith("@task"):
+            cur = int(line_.split()[1]); continue
+        cl = A.parse_call(line_)
+        if cl.op == "--": continue
+        if cur is None: return "kernel call outside any task: " + line_[:60]
+        r, w = fp(cl)
+        ins, outs, _ = decl[cur]
+        if not w <= outs:
+            return "task %d writes %s without declaring it (declared writes %s)" % (cur, sorted(w - outs), sorted(outs))
+        if not r <= (ins | outs):
+            return "task %d reads %s without declaring it (declared %s)" % (cur, sorted(r - ins - outs), sorted(ins | outs))
+    return None
+
+
+def tsm_case_text(base, policy, Tn, sseed):
+    """base is an exectsm case (c09.case_text); periodic flag kept at 0"""
+    t = base.split()
+    return "execomptsm " + " ".join(t[1:7]) + " %d %d %d " % (policy, Tn, sseed) + " ".join(t[7:])
+
+
+def tsm_model_text(c):
+    t = c.split()
+    return "exectsm " + " ".join(t[1:7]) + " " + " ".join(t[10:])
+
+
+def run_tsm(rep, binary, tier, seed, sdir):
+    rng = vlib.Rng(seed).fork("c03tsm")
+    bases = c09.gen_cases("quick", rng)
+    rng.shuffle(bases) if hasattr(rng, "shuffle") else None
+    bases = [b for b in bases if int(b.split()[1]) <= 3][: (24 if tier == "quick" else 220)]
+    nrand = 2 if tier == "quick" else 12
+    cases = []
+    for b in bases:
+        scheds = [(0, 1, 0), (1, rng.choice([1, 2, 8]), 0), (2, rng.choice([2, 3, 8]), 0), (4, 4, 0), (5, 16, 0)]
+        scheds += [(3, rng.choice([1, 2, 3, 8, 16]), rng.below(1 << 30)) for _ in range(nrand)]
+        for pol, Tn, ss in scheds:
+            cases.append(tsm_case_text(b, pol, Tn, ss))
+    stats = Counter()
+
+    def canon(c, line):
+        if line.startswith(("ABORT", "MODEL", "?")):
+            return line
+        parts = line.split(" || ")
+        calls = [A.parse_call(x) for x in A.split_trace(parts[2]) if not x.startswith("@task")]
+        return (parts[0], parts[1], sorted(A.elementary(calls).items()))
+
+    def oracle(c, line):
+        t = c.split()
+        parts = line.split(" || ")
+        m = c09.tsm_oracle(tsm_model_text(c), parts, trace_filter=lambda x: not x.startswith("@task"))
+        if m: return "target/source run under schedule %s, %s workers: %s" % (POLICIES[int(t[7])], t[8], m)
+        decl, m = parse_decl(parts[4])
+        if m: return m
+        S, Tg, stop, flags = c09.parse_case(tsm_model_text(c))
+        cgs, pgs = group_maps(T.parse_dump(parts[0]))
+        cgt, pgt = group_maps(T.parse_dump(parts[1]))
+        m = check_footprints(A.split_trace(parts[2]), decl, lambda cl: footprint_tsm(cl, cgs, pgs, cgt, pgt, S.H - 1))
+        if m: return m
+        stats[POLICIES[int(t[7])]] += 1
+        return None
+
+    vlib.differential(rep, binary, cases, sdir, "omptsm", canon=canon, oracle=oracle, model_cases=[tsm_model_text(c) for c in cases],
+                      nontrivial=lambda c, i: " M2L " in i and " P2PTsm " in i and i.count("@task") > 6,
+                      clause=lambda c: "omptsm:%s" % POLICIES[int(c.split()[7])],
+                      abort_fields=lambda c, i: dict(executor="openmp-tsm", lifetime=("stack-use-after" in i)))
+    rep.coverage["schedules_tsm"] = dict(stats)
 
 
 def case_text(tc, stop, flags, policy, Tn, sseed):
@@ -112,30 +217,11 @@ def run(tier, seed):
             m = A.oracle_c01_values(tc, R, C, s)
             if m: return "values differ from the sequential result under schedule %s, %s workers: %s" % (POLICIES[int(t[7])], t[8], m)
             # declared dependences cover what each task touches
-            decl = {}
-            for tok in parts[4].split()[1:]:
-                seq, prio, worker, deps = tok.split(":", 3)
-                ins, outs = set(), set()
-                for dd in deps.split(","):
-                    if not dd: continue
-                    kind, buf = dd.split("@")
-                    if buf == "?": return "task %s declares a dependence on an address that is no group buffer" % seq
-                    (ins if kind == "in" else outs).add(buf)
-                decl[int(seq)] = (ins, outs, int(worker))
+            decl, m = parse_decl(parts[4])
+            if m: return m
             cg, pg = group_maps(dump)
-            cur = None
-            for line_ in trace:
-                if line_.startswith("@task"):
-                    cur = int(line_.split()[1]); continue
-                cl = A.parse_call(line_)
-                if cl.op == "--": continue
-                if cur is None: return "kernel call outside any task: " + line_[:60]
-                r, w = footprint(cl, cg, pg, tc.H - 1)
-                ins, outs, _ = decl[cur]
-                if not w <= outs:
-                    return "task %d writes %s without declaring it (declared writes %s)" % (cur, sorted(w - outs), sorted(outs))
-                if not r <= (ins | outs):
-                    return "task %d reads %s without declaring it (declared %s)" % (cur, sorted(r - ins - outs), sorted(ins | outs))
+            m = check_footprints(trace, decl, lambda cl: footprint(cl, cg, pg, tc.H - 1))
+            if m: return m
             stats[POLICIES[int(t[7])]] += 1
             return None
 
@@ -144,8 +230,9 @@ def run(tier, seed):
                           clause=lambda c: "omp:%s" % POLICIES[int(c.split()[7])],
                           abort_fields=lambda c, i: dict(executor="openmp", lifetime=("stack-use-after" in i)))
         rep.coverage["schedules"] = dict(stats)
+        run_tsm(rep, binary, tier, seed, sdir)
         rep.coverage["rule"] = ("real TbfOpenmpAlgorithm + mock GOMP runtime: per tree the schedules immediate, all-deferred FIFO, LIFO, priority, priority-inverted and random linear extensions, "
-                                "worker counts 1,2,3,8,16, full and staged flag sets; trees d=1..3; non-trivial = M2L present and more than 8 tasks")
+                                "worker counts 1,2,3,8,16, full and staged flag sets; trees d=1..3; non-trivial = M2L present and more than 8 tasks; the same for TbfOpenmpAlgorithmTsm on source/target tree pairs")
         return rep.finish()
     finally:
         vlib.cleanup(sdir)
